@@ -225,7 +225,7 @@ def position_after(fn, call):
     return (b, i + 1)
 
 
-def assume(fb, fn, call, pull, fs, stop_at=()):
+def assume(fb, fn, call, pull, fs, stop_at=(), extra=None):
     """ERRDISC walk from `call` under the assumption that its status lies in fs.  None if the status channel has an unknown shape."""
     if pull.status == 'ret':
         env = {('node', call['id']): fs}
@@ -241,7 +241,61 @@ def assume(fb, fn, call, pull, fs, stop_at=()):
         return None
     for k, v in state_env(fn, call).items():
         env.setdefault(k, v)
+    for k, v in seed_env(fn, exclude=(call['id'],)).items():
+        env.setdefault(k, v)
+    for k, v in (extra or {}).items():
+        env[k] = v
     return E.explore(fn, start, env, site=call['id'], fb=fb, facts=E.guard_facts(fn, call['id']), stop_at=set(stop_at))
+
+
+def _success_set(fs):
+    """the values a call returns when it did not fail, as far as the failure set determines them."""
+    if fs.kind == 'fin':
+        if fs.data == frozenset([0]):
+            return E.ge(1)                 # null / 0 on failure: non-null otherwise
+        if fs.data == frozenset([-1]):
+            return E.ge(0)                 # POSIX
+        if 0 not in fs.data and 1 not in fs.data:
+            return E.fin(0)                # zlib / libbz2 codes: Z_OK / BZ_OK
+        return None
+    if fs.kind == 'lt':
+        return E.ge(fs.data)
+    return None
+
+
+def seed_env(fn, exclude=(), _memo={}):
+    """Static facts the three-valued walk cannot derive by itself, as environment entries keyed by expression node:
+      * an integer / null constant stored to a variable or member (`result = Z_BUF_ERROR;`, `m_buffer = nullptr;`) is that value
+        (the engine only propagates values it was seeded with);
+      * a call of a convention-table function other than the pull functions returns its success value: its failure is a site of
+        its own (E1 requires that no normal exit is reachable from it), so the rules about normal paths need not follow it."""
+    key = (id(fn), tuple(exclude))
+    if key in _memo:
+        return _memo[key]
+    env = {}
+    for n in fn.all_nodes():
+        k = n.get('k')
+        if k == 'assign' and n.get('op') == '=' and isinstance(n.get('rhs'), int):
+            v = E.const_of(fn, n['rhs'])
+            if v is not None and E.carrier_of(fn, n['lhs']) is not None:
+                env[('node', n['rhs'])] = E.fin(v)
+        elif k == 'decl':
+            for var in n['vars']:
+                # (const locals are constants wherever they are read; seeding them would put a value on both sides of `x == k`)
+                if isinstance(var.get('init'), int) and not var.get('tC', '').startswith('const '):
+                    v = E.const_of(fn, var['init'])
+                    if v is not None:
+                        env[('node', var['init'])] = E.fin(v)
+        elif E.is_extern_c(n) and n['id'] not in exclude and n['q'] not in PULLS:
+            conv = E.CONVENTIONS.get(n['q'])
+            if conv is not None:
+                for ch in conv.channels:
+                    if ch[0] == 'ret':
+                        ok = _success_set(ch[1])
+                        if ok is not None:
+                            env[('node', n['id'])] = ok
+    _memo[key] = env
+    return env
 
 
 def state_env(fn, call, until=None):
@@ -267,12 +321,33 @@ def state_env(fn, call, until=None):
     return env
 
 
-def walk_from(fb, fn, node, site=None, stop_at=(), env=None):
+def walk_from(fb, fn, node, site=None, stop_at=(), env=None, seeded=False):
     """ERRDISC walk from just after element `node` without any assumption (all branches feasible)."""
     start = position_after(fn, node)
     if start is None:
         return None
-    return E.explore(fn, start, dict(env or {}), site=site, fb=fb, stop_at=set(stop_at))
+    env = dict(env or {})
+    if seeded:
+        for k, v in seed_env(fn).items():
+            env.setdefault(k, v)
+    return E.explore(fn, start, env, site=site, fb=fb, stop_at=set(stop_at))
+
+
+def on_normal_path(o, fn, start_node, nid):
+    """Outcome o of a walk that started right after element start_node: is element nid on a path that reaches a normal exit?
+    (Every distinct (block, environment) state keeps a witness path; a constant stored by nid changes the environment, so a
+    path through nid is never merged with one around it.)"""
+    if o is None:
+        return False
+    pos = fn.positions()
+    if nid not in pos or nid not in o.reached:
+        return False
+    bd = pos[nid][0]
+    same_block = start_node in pos and pos[start_node][0] == bd and pos[start_node][1] < pos[nid][1]
+    for p in o.exits:
+        if same_block or ('B', bd) in p:
+            return True
+    return False
 
 
 def returned_local(fn):
@@ -758,6 +833,46 @@ def lower_switches(g):
     return g
 
 
+def fix_short_circuit_joins(g):
+    """In a loop condition `a && b` clang's CFG sends the false edge of `a` into the join block whose terminator is the whole
+    expression (for an if statement it goes straight to the else target).  The engine reads the join's condition as `b`, which is
+    only right for the arrival through `b`.  Give the short-circuit edge its real target, as in the if form."""
+    changed = False
+    for _round in range(6):
+        again = False
+        preds = {}
+        for b in g.blocks.values():
+            for sx in b['succs']:
+                if sx is not None:
+                    preds.setdefault(sx, []).append(b['id'])
+        for J in g.blocks.values():
+            if not _is_id(J.get('cond')) or len(J['succs']) != 2 or J.get('termcls') == 'SwitchStmt':
+                continue
+            n = g.sn(J['cond'])
+            if n is None or n.get('k') != 'binop' or n.get('op') not in ('&&', '||'):
+                continue
+            lhs = g.strip(n['lhs'])
+            if lhs in J['elems'] or n['lhs'] in J['elems']:
+                continue
+            idx = 1 if n['op'] == '&&' else 0
+            for pid in preds.get(J['id'], []):
+                P = g.blocks[pid]
+                if not _is_id(P.get('cond')) or len(P['succs']) != 2 or P is J:
+                    continue
+                if g.strip(P['cond']) != lhs:
+                    continue
+                if P['succs'][idx] == J['id'] and P['succs'][1 - idx] != J['id'] and J['succs'][idx] is not None:
+                    P['succs'] = list(P['succs'])
+                    P['succs'][idx] = J['succs'][idx]
+                    again = True
+                    changed = True
+        if not again:
+            break
+    if changed:
+        g._reset()
+    return changed
+
+
 _PURE_KINDS = {'binop', 'lit', 'wrap', 'icast', 'cast', 'condop', 'sizeof'}
 
 
@@ -778,7 +893,9 @@ def substitute_named_conditions(g):
             mods.setdefault(d, []).append(n['id'])
 
     def pure_vars(nid):
+        """(locals read, reads object members?) of an initialiser built from operators, constants, locals and members; else None."""
         vs = set()
+        members = False
         for x in g.subtree(g.strip(nid)):
             m = g.nodes[x]
             k = m.get('k')
@@ -790,9 +907,29 @@ def substitute_named_conditions(g):
             elif k == 'unop':
                 if m.get('op') not in ('!', '-', '+', '~'):
                     return None
+            elif k == 'member' and m.get('field'):
+                members = True
+            elif k == 'this':
+                continue
             elif k not in _PURE_KINDS:
                 return None
-        return vs
+        return vs, members
+
+    # elements that may change an object member: any call / construction / store through something that is not a plain local
+    impure = set()
+    els = elements(g)
+    for n in g.nodes.values():
+        if n['id'] not in els:
+            continue
+        k = n.get('k')
+        if k in ('call', 'construct', 'new', 'delete', 'autodtor'):
+            if k == 'call' and n.get('q', '').startswith('std::basic_string::') and call_name(n) in ('size', 'length', 'empty', 'data', 'c_str', 'begin', 'end'):
+                continue
+            impure.add(n['id'])
+        elif k == 'assign' or (k == 'unop' and n.get('op') in ('++', '--')):
+            c = E.carrier_of(g, n.get('lhs', n.get('sub')))
+            if c is None or c[0] != 'var':
+                impure.add(n['id'])
 
     cond_nodes = set()
     for b in g.blocks.values():
@@ -808,9 +945,10 @@ def substitute_named_conditions(g):
         if len(dl) != 1 or dl[0][1] is None or d in mods:
             continue
         de, init = dl[0]
-        vs = pure_vars(init)
-        if vs is None or d in vs:
+        pv = pure_vars(init)
+        if pv is None or d in pv[0]:
             continue
+        vs, members = pv
         if not g.elem_dominates(de, x):
             continue
         ux = element_of(g, x)
@@ -819,6 +957,11 @@ def substitute_named_conditions(g):
             for m in mods.get(v, []):
                 if reaches(g, de, m, barrier=lambda e: e == ux) and reaches(g, m, x, barrier=lambda e: e == de):
                     ok = False
+        if members and ok:
+            for m in impure:
+                if m != de and reaches(g, de, m, barrier=lambda e: e == ux) and reaches(g, m, x, barrier=lambda e: e == de):
+                    ok = False
+                    break
         if not ok:
             continue
         keep = {k: n[k] for k in ('l', 'c', 'o', 'oe', 't') if k in n}
@@ -1021,6 +1164,8 @@ def normalized(fb, fn, inline=True, _memo={}):
     if any(b.get('termcls') == 'SwitchStmt' for b in g.blocks.values()):
         lower_switches(g)
         changed = True
+    if fix_short_circuit_joins(g):
+        changed = True
     if substitute_named_conditions(g):
         changed = True
     res = g if changed else fn
@@ -1056,3 +1201,54 @@ def input_test_elements(fn, call, pull):
         if c is not None and mentions(c):
             out |= {x for x in fn.subtree(c) if x in els}
     return out
+
+
+def _string_probe_nodes(fn, call, X):
+    after = set(fn.elems_after(call['id']))
+    out = {'empty': [], 'size': []}
+    for n in fn.all_nodes():
+        if n.get('k') == 'call' and n['id'] in after and X is not None:
+            if string_call_on(fn, n, X, {'empty'}):
+                out['empty'].append(n['id'])
+            elif string_call_on(fn, n, X, {'size', 'length'}):
+                out['size'].append(n['id'])
+    return out
+
+
+def no_output_env(fn, call, pull, X):
+    """environment entries saying "this pull produced nothing": avail_out still has the value it was given before the call, the
+    returned string is empty once it was cut to the count."""
+    env = {}
+    sq = stream_field(fn, call, pull)
+    given = None
+    if sq is not None:
+        for n in fn.all_nodes():
+            if n.get('k') == 'assign' and n.get('op') == '=' and fn.elem_dominates(n['id'], call['id']) \
+                    and is_stream_member(fn, fn.strip(n['lhs']), sq, {'avail_out'}):
+                given = E.const_of(fn, n['rhs'])
+                if given is None:
+                    a = resolve_alias(fn, n['rhs'])
+                    given = E.const_of(fn, a['id']) if a is not None else None
+        after = set(fn.elems_after(call['id']))
+        for x in fn.nodes:
+            if is_stream_member(fn, x, sq, {'avail_out'}) and element_of(fn, x) in after:
+                env[('node', x)] = E.fin(given) if given is not None else E.ge(1)
+    pr = _string_probe_nodes(fn, call, X)
+    for x in pr['empty']:
+        env[('node', x)] = E.fin(1)
+    for x in pr['size']:
+        env[('node', x)] = E.fin(0)
+    return env
+
+
+def has_output_env(fn, call, pull, X):
+    """environment entries saying "this pull produced at least one byte"."""
+    env = {}
+    if pull.count == 'ret' and pull.status != 'ret':
+        env[('node', call['id'])] = E.ge(1)
+    pr = _string_probe_nodes(fn, call, X)
+    for x in pr['empty']:
+        env[('node', x)] = E.fin(0)
+    for x in pr['size']:
+        env[('node', x)] = E.ge(1)
+    return env
